@@ -79,7 +79,7 @@ class Tally:
                 "solver_time_s": round(self.time, 3), "slowest_query_s": round(self.max_time, 3)}
 
 
-def check(tally, constraints, timeout_ms=60000, label=None, keep_sample=False, seed_=None, tactic=None):
+def check(tally, constraints, timeout_ms=60000, label=None, keep_sample=False, seed_=None, tactic=None, _retry=True):
     """Returns ('unsat', None) | ('sat', model) | ('unknown', reason)."""
     import z3
     if tactic is not None:
@@ -110,8 +110,14 @@ def check(tally, constraints, timeout_ms=60000, label=None, keep_sample=False, s
     if r == z3.sat:
         tally.sat += 1
         return "sat", s.model()
+    reason = s.reason_unknown()
+    if _retry and tactic is None and ("timeout" in reason or "canceled" in reason or "cancelled" in reason):
+        # a loaded machine can push a query over its budget: one retry with four times the budget (and another seed)
+        # before the verdict is reported as unknown
+        return check(tally, constraints, timeout_ms * 4, label=label, keep_sample=False,
+                     seed_=(seed_ or 0) + 7919, tactic=None, _retry=False)
     tally.unknown += 1
-    return "unknown", s.reason_unknown()
+    return "unknown", reason
 
 
 # ------------------------------------------------------------------------------------
@@ -243,7 +249,7 @@ def check_portfolio(tally, constraints, plan=((None, 20000), ("qfnra-nlsat", 600
     last = ("unknown", "no strategy")
     for i, (tactic, tmo) in enumerate(plan):
         sub = Tally()
-        r = check(sub, constraints, tmo, label=label, keep_sample=keep_sample, tactic=tactic)
+        r = check(sub, constraints, tmo, label=label, keep_sample=keep_sample, tactic=tactic, _retry=False)
         tally.time += sub.time
         tally.max_time = max(tally.max_time, sub.max_time)
         if r[0] != "unknown":
